@@ -24,10 +24,11 @@ class _Ret(Exception):
         self.v = v
 
 
-def call_method(func_node, self_state, args):
+def call_method(func_node, self_state, args, extra=None):
     """run `func_node` (a FunctionDef) with self bound to the dict `self_state` (field name -> python value)"""
     prm = A.params(func_node)
     env = {"__self__": self_state}
+    env.update(extra or {})
     dflt = func_node.args.defaults
     names = prm[1:]
     vals = list(args)
